@@ -54,6 +54,8 @@ func c17DagWorld() jose.World {
 		},
 		Payload: []byte("452d9e89d5bd5d9225fb6daecd579e7388a166c7661ca04e47fd3cd8446e4620"),
 		JWKKid:  true,
+		// the transaction reference is the hash of the received bytes: one signature must be admissible under one byte string only
+		CanonicalOnly: true,
 	}
 }
 
